@@ -419,6 +419,8 @@ fn surroundings(g: &mut Gen, layers_mode: u32) {
     if layers_mode != 0o755 { let i = g.entries.iter().position(|e| e.path == c(&[b"layers"])).unwrap(); g.entries[i].kind = Kind::D(layers_mode); }
 }
 
+const FILE_TOPS: [&str; 5] = ["top-hard-file", "top-hard-file-rw", "top-file-644", "top-file-444", "top-file-000"];
+
 struct Shape { top: &'static str, toml: &'static str, sboms: [bool; 3], layers_mode: u32 }
 
 fn make_case(api: &str, uid: &str, name: &[u8], kindtag: &str, shape: &Shape, r: &mut Rng, maxdepth: usize, fixed: Option<&dyn Fn(&mut Gen, &[Vec<u8>])>) -> Case {
@@ -429,8 +431,13 @@ fn make_case(api: &str, uid: &str, name: &[u8], kindtag: &str, shape: &Shape, r:
     match shape.top {
         "dir" => { let m = if g.r.chance(1, 5) { *g.r.pick(&DIR_MODES) } else { 0o755 }; if m & 0o700 != 0o700 { g.oddmode = true; } g.d(lp.clone(), m); match fixed { Some(f) => f(&mut g, &lp), None => g.fill(&lp, 0) } }
         "absent" => { present = false; }
-        // `<layers>/<name>` itself a regular file that has a second name outside the layer (mode 0444)
+        // `<layers>/<name>` itself a regular file that has a second name outside the layer (mode 0444 / 0644): defect D8
         "top-hard-file" => { g.h(lp.clone(), vec![b"canary".to_vec(), b"d0".to_vec(), b"k".to_vec()]); g.hards.push("top"); }
+        "top-hard-file-rw" => { g.h(lp.clone(), vec![b"canary".to_vec(), b"f1".to_vec()]); g.hards.push("top"); }
+        // `<layers>/<name>` a regular file with no other name
+        "top-file-644" => { g.f(lp.clone(), 0o644, b"plain"); }
+        "top-file-444" => { g.f(lp.clone(), 0o444, b"plain"); }
+        "top-file-000" => { g.f(lp.clone(), 0o000, b""); }
         t => { let target: &[u8] = match t {
                 "top-out-dir-rel" => b"../canary/d1", "top-out-dir-abs" => b"/canary/d1", "top-out-ro-dir" => b"../canary/d0", "top-out-noexec-dir" => b"../canary/dz",
                 "top-out-file" => b"../canary/f1", "top-sibling" => b"other", "top-dangling" => b"nope", "top-loop" => b"", _ => b"../canary/d1" };
@@ -442,7 +449,7 @@ fn make_case(api: &str, uid: &str, name: &[u8], kindtag: &str, shape: &Shape, r:
     let depth = g.entries.iter().filter(|e| e.path.starts_with(&lp)).map(|e| e.path.len() - 2).max().unwrap_or(0);
     let mut lk: Vec<&str> = g.links.clone(); lk.sort(); lk.dedup();
     let mut hk: Vec<&str> = g.hards.clone(); hk.sort(); hk.dedup();
-    let nontrivial = present && shape.toml != "B" && (!g.links.is_empty() || g.oddmode || !g.hards.is_empty());
+    let nontrivial = present && shape.toml != "B" && (!g.links.is_empty() || g.oddmode || !g.hards.is_empty() || shape.top.starts_with("top-file"));
     let mut tags = vec![("kind".to_string(), format!("{kindtag}-{api}-{uid}")), ("top".into(), shape.top.into()), ("toml".into(), shape.toml.into()), ("depth".into(), depth.to_string()),
         ("links".into(), g.links.len().min(6).to_string()), ("hard".into(), g.hards.len().min(6).to_string()), ("oddmode".into(), u8::from(g.oddmode).to_string()), ("layersmode".into(), format!("{:o}", shape.layers_mode))];
     for k in lk { tags.push((format!("link-{k}"), "1".into())); }
@@ -500,12 +507,12 @@ fn generate(tier: &str, seed: u64, emit: &mut dyn FnMut(Case)) {
             g.hards.push("sbom"); g.hards.push("out");
         };
         let mut cs = make_case(api, uid, b"lyr", "directed-hard", &shape, &mut r, 1, Some(&f)); cs.tags.push(("content".into(), "hard-sbom".into())); emit(cs);
-        // only on request (C11_TOP_HARDLINK=1): `<layers>/<name>` itself a regular file with a second name outside the layer
-        if std::env::var_os("C11_TOP_HARDLINK").is_some() {
+        // `<layers>/<name>` itself a regular file: a second name of a canary file (D8), or a file with no other name
+        for top in FILE_TOPS { for toml in ["T", "~"] {
             hidx += 1; let mut r = Rng::for_case(seed ^ 0xC11B, hidx);
-            let shape = Shape { top: "top-hard-file", toml: "T", sboms: [false, false, false], layers_mode: 0o755 };
+            let shape = Shape { top, toml, sboms: [toml == "T", false, false], layers_mode: 0o755 };
             emit(make_case(api, uid, b"lyr", "directed-hard", &shape, &mut r, 1, None));
-        }
+        } }
     } }
     let mut idx = 0u64;
     for api in ["U", "C", "T"] { for uid in ["root", "user"] {
@@ -533,7 +540,7 @@ fn generate(tier: &str, seed: u64, emit: &mut dyn FnMut(Case)) {
         let api = *r.pick(&["U", "C", "T"]);
         let uid = if r.chance(2, 5) { "user" } else { "root" };
         let name: &[u8] = *r.pick(&LAYER_NAMES);
-        let top = match r.below(100) { 0..=83 => "dir", 84..=95 => *r.pick(&tops[1..9]), _ => "absent" };
+        let top = match r.below(100) { 0..=83 => "dir", 84..=94 => *r.pick(&tops[1..9]), 95..=97 => *r.pick(&FILE_TOPS), _ => "absent" };
         let toml = match r.below(100) { 0..=19 => "~", 20..=34 => "E", 35..=69 => "T", 70..=91 => "G", _ => "B" };
         let sboms = if top == "absent" { [false; 3] } else { [r.chance(1, 3), r.chance(1, 3), r.chance(1, 3)] };
         let layers_mode = if uid == "user" && r.chance(1, 4) { *r.pick(&[0o555u32, 0o300, 0o600, 0o000, 0o700, 0o500]) } else { 0o755 };
